@@ -1,1 +1,733 @@
-//! reference model `keytable` (filled in by the property that needs it)
+//! C04 reference: what a terminal sends, and what those bytes denote.
+//!
+//! Two parts, both free of the library's code:
+//!
+//! 1. **Golden naming tables** (transcribed ONCE from the library, because the property makes
+//!    the library's fixed naming table part of the specification): the legacy key table
+//!    (`legacy_keys`), the SGR-mouse button naming (`mouse_button_name`) and the RGB values of
+//!    the sixteen basic palette entries (`BASIC16`). They are data, not logic: every row is
+//!    spelled out or produced by the xterm modifier rule `param = 1 + mask`.
+//!
+//! 2. **Printers** written from xterm ctlseqs ("Mouse Tracking", "Device-Control functions",
+//!    "Operating System Commands", CPR, XTWINOPS, DECRPM, DA1, DECRPSS, XTGETTCAP), the kitty
+//!    keyboard protocol ("CSI unicode-key-code:alternate-key-codes ; modifiers u", functional key
+//!    table, `CSI ? flags u`), the kitty graphics protocol (`APC G i=..,p=.. ; msg ST`),
+//!    bracketed paste (`CSI 200 ~ text CSI 201 ~`), ECMA-48 / ISO-8613-6 SGR: given the *intended*
+//!    event they produce the bytes a terminal sends.
+//!
+//! Everything is expressed in model types (`Ev`, ...) so nothing here depends on `surf_n_term`.
+use serde::{Deserialize, Serialize};
+use std::collections::{BTreeMap, BTreeSet};
+
+// ---------------------------------------------------------------------------------------------
+// model event types
+// ---------------------------------------------------------------------------------------------
+
+/// modifier bits; the numbering is the one of xterm (`param - 1`: shift 1, alt 2, ctrl 4) and its
+/// kitty extension (super 8, hyper 16, meta 32, caps_lock 64, num_lock 128); PRESS is the
+/// library's marker for the `M` final of an SGR mouse report.
+pub const SHIFT: u32 = 1;
+pub const ALT: u32 = 2;
+pub const CTRL: u32 = 4;
+pub const SUPER: u32 = 8;
+pub const HYPER: u32 = 16;
+pub const META: u32 = 32;
+pub const CAPS: u32 = 64;
+pub const NUM: u32 = 128;
+pub const PRESS: u32 = 256;
+
+#[derive(Debug, Clone, Copy, PartialEq, Eq, Hash, PartialOrd, Ord, Serialize, Deserialize)]
+pub enum KName {
+    Backspace,
+    Char(char),
+    Delete,
+    Insert,
+    Down,
+    End,
+    Enter,
+    Esc,
+    F(usize),
+    Home,
+    Left,
+    MouseLeft,
+    MouseMiddle,
+    MouseMove,
+    MouseRight,
+    MouseWheelDown,
+    MouseWheelUp,
+    PageDown,
+    PageUp,
+    Right,
+    Tab,
+    Up,
+}
+
+#[derive(Debug, Clone, Copy, PartialEq, Eq, Hash, PartialOrd, Ord, Serialize, Deserialize)]
+pub enum UStyle {
+    None,
+    Straight,
+    Double,
+    Curly,
+    Dotted,
+    Dashed,
+}
+
+#[derive(Debug, Clone, Copy, PartialEq, Eq, Hash, PartialOrd, Ord, Serialize, Deserialize)]
+pub enum ColorName {
+    Background,
+    Foreground,
+    Palette(usize),
+}
+
+pub type Rgb = [u8; 3];
+
+/// A face modification record (what one SGR sequence denotes)
+#[derive(Debug, Clone, Copy, PartialEq, Eq, Hash, PartialOrd, Ord, Default, Serialize, Deserialize)]
+pub struct MModify {
+    pub reset: bool,
+    pub fg: Option<Rgb>,
+    pub bg: Option<Rgb>,
+    pub underline: Option<UStyle>,
+    pub underline_color: Option<Rgb>,
+    pub bold: Option<bool>,
+    pub italic: Option<bool>,
+    pub blink: Option<bool>,
+    pub strike: Option<bool>,
+}
+
+/// A complete face (what a DECRPSS SGR report denotes, starting from the default face)
+#[derive(Debug, Clone, Copy, PartialEq, Eq, Hash, PartialOrd, Ord, Serialize, Deserialize)]
+pub struct MFace {
+    pub fg: Option<Rgb>,
+    pub bg: Option<Rgb>,
+    pub underline: UStyle,
+    pub bold: bool,
+    pub italic: bool,
+    pub blink: bool,
+    pub reverse: bool,
+    pub strike: bool,
+}
+
+#[derive(Debug, Clone, PartialEq, Eq, Hash, PartialOrd, Ord, Serialize, Deserialize)]
+pub enum Ev {
+    Key { name: KName, mods: u32 },
+    Mouse { name: KName, mods: u32, row: usize, col: usize },
+    CursorPosition { row: usize, col: usize },
+    Size { cells_h: usize, cells_w: usize, px_h: usize, px_w: usize },
+    /// mode = DEC private mode number, status = Ps of DECRPM
+    DecMode { mode: usize, status: usize },
+    DeviceAttrs(BTreeSet<usize>),
+    /// each component: the two acceptable 8-bit values (most significant byte, and nearest
+    /// scaling) - equal except for 12/16-bit components that are not byte replications
+    Color { name: ColorName, comps: [(u8, u8); 3], alpha: u8 },
+    Termcap(BTreeMap<String, Option<String>>),
+    KeyboardLevel(usize),
+    KittyImage { id: u64, placement: Option<u64>, error: Option<String> },
+    Paste(String),
+    FaceGet(MFace),
+    FaceModify(MModify),
+    /// unrecognised bytes (never an expected value)
+    Raw(Vec<u8>),
+    /// an event the model has no name for (never an expected value)
+    Other(String),
+}
+
+impl Ev {
+    pub fn key(name: KName, mods: u32) -> Ev {
+        Ev::Key { name, mods }
+    }
+    pub fn ch(c: char) -> Ev {
+        Ev::Key { name: KName::Char(c), mods: 0 }
+    }
+    /// expected == observed (colour components: observed must be one of the two allowed values;
+    /// an observed colour is carried as `(v, v)`)
+    pub fn accepts(&self, observed: &Ev) -> bool {
+        match (self, observed) {
+            (
+                Ev::Color { name, comps, alpha },
+                Ev::Color { name: oname, comps: ocomps, alpha: oalpha },
+            ) => {
+                name == oname
+                    && alpha == oalpha
+                    && (0..3).all(|i| ocomps[i].0 == ocomps[i].1 && (ocomps[i].0 == comps[i].0 || ocomps[i].0 == comps[i].1))
+            }
+            (a, b) => a == b,
+        }
+    }
+}
+
+// ---------------------------------------------------------------------------------------------
+// golden table 1: legacy keys
+// ---------------------------------------------------------------------------------------------
+
+#[derive(Debug, Clone)]
+pub struct KeyRow {
+    pub group: &'static str,
+    pub bytes: Vec<u8>,
+    pub name: KName,
+    pub mods: u32,
+    /// the bytes are a proper prefix of other well-formed sequences (ESC; the 7-bit introducers
+    /// CSI `ESC [`, SS3 `ESC O`, DCS `ESC P`, OSC `ESC ]`, APC `ESC _`): the key can only be
+    /// reported once following input rules the longer reading out
+    pub prefix: bool,
+}
+
+/// `CSI <code> ~` keys (xterm/rxvt numbering as the library names them)
+pub const TILDE_KEYS: [(&str, KName); 20] = [
+    ("1", KName::Home),
+    ("2", KName::Insert),
+    ("3", KName::Delete),
+    ("4", KName::End),
+    ("5", KName::PageUp),
+    ("6", KName::PageDown),
+    ("7", KName::Insert), // sic: the library names `CSI 7 ~` insert (rxvt sends it for home)
+    ("8", KName::End),
+    ("11", KName::F(1)),
+    ("12", KName::F(2)),
+    ("13", KName::F(3)),
+    ("14", KName::F(4)),
+    ("15", KName::F(5)),
+    ("17", KName::F(6)),
+    ("18", KName::F(7)),
+    ("19", KName::F(8)),
+    ("20", KName::F(9)),
+    ("21", KName::F(10)),
+    ("23", KName::F(11)),
+    ("24", KName::F(12)),
+];
+
+/// `CSI <letter>` / `CSI 1 ; <mod> <letter>` keys
+pub const LETTER_KEYS: [(u8, KName); 10] = [
+    (b'A', KName::Up),
+    (b'B', KName::Down),
+    (b'C', KName::Right),
+    (b'D', KName::Left),
+    (b'F', KName::End),
+    (b'H', KName::Home),
+    (b'P', KName::F(1)),
+    (b'Q', KName::F(2)),
+    (b'R', KName::F(3)),
+    (b'S', KName::F(4)),
+];
+
+/// `SS3 <letter>` keys
+pub const SS3_KEYS: [(u8, KName); 4] = [(b'P', KName::F(1)), (b'Q', KName::F(2)), (b'R', KName::F(3)), (b'S', KName::F(4))];
+
+/// the 32 ASCII punctuation characters
+pub const PUNCTUATION: &str = "!\"#$%&'()*+,-./:;<=>?@[\\]^_`{|}~";
+
+/// The whole legacy key table, one row per distinct byte sequence.
+pub fn legacy_keys() -> Vec<KeyRow> {
+    let mut rows = Vec::new();
+    let mut push = |group: &'static str, bytes: Vec<u8>, name: KName, mods: u32| {
+        let prefix = matches!(bytes.as_slice(), b"\x1b" | b"\x1b[" | b"\x1bO" | b"\x1bP" | b"\x1b]" | b"\x1b_");
+        rows.push(KeyRow { group, bytes, name, mods, prefix });
+    };
+    push("single", vec![0x1b], KName::Esc, 0);
+    push("single", vec![0x7f], KName::Backspace, 0);
+    push("single", vec![0x00], KName::Char(' '), CTRL);
+    // C0 controls 0x01..=0x1a are ctrl+letter (so TAB is ctrl+i, CR is ctrl+m, LF ctrl+j, BS ctrl+h)
+    for (i, c) in ('a'..='z').enumerate() {
+        push("ctrl-letter", vec![i as u8 + 1], KName::Char(c), CTRL);
+    }
+    // meta-sends-escape
+    for c in 'a'..='z' {
+        push("alt-lower", vec![0x1b, c as u8], KName::Char(c), ALT);
+    }
+    for c in 'A'..='Z' {
+        push("alt-upper", vec![0x1b, c as u8], KName::Char(c.to_ascii_lowercase()), ALT | SHIFT);
+    }
+    for c in PUNCTUATION.chars() {
+        push("alt-punct", vec![0x1b, c as u8], KName::Char(c), ALT);
+    }
+    for c in '0'..='9' {
+        push("alt-digit", vec![0x1b, c as u8], KName::Char(c), ALT);
+    }
+    // CSI code ~ and CSI code ; mod ~   (xterm: mod = 1 + mask, mask over shift|alt|ctrl)
+    for (code, name) in TILDE_KEYS {
+        push("tilde", format!("\x1b[{code}~").into_bytes(), name, 0);
+        for mask in 1..=7u32 {
+            push("tilde-mod", format!("\x1b[{code};{}~", mask + 1).into_bytes(), name, mask);
+        }
+    }
+    for (letter, name) in LETTER_KEYS {
+        push("csi-letter", vec![0x1b, b'[', letter], name, 0);
+        for mask in 1..=7u32 {
+            let mut b = format!("\x1b[1;{}", mask + 1).into_bytes();
+            b.push(letter);
+            push("csi-letter-mod", b, name, mask);
+        }
+    }
+    for (letter, name) in SS3_KEYS {
+        push("ss3", vec![0x1b, b'O', letter], name, 0);
+    }
+    rows
+}
+
+// ---------------------------------------------------------------------------------------------
+// golden table 2: SGR mouse button naming (library's names for xterm button codes)
+// ---------------------------------------------------------------------------------------------
+
+/// Name for the button code `Pb` of `CSI < Pb ; Px ; Py M|m`, codes 0..=127.
+/// xterm: low two bits = button (3 = none), +4 shift, +8 meta, +16 control, +32 motion,
+/// +64 = buttons 4/5 (wheel). The library's naming: wheel code 64 -> MouseWheelDown,
+/// 65 -> MouseWheelUp (sic), 66/67 -> MouseMove; without bit 6: left, middle, right, move.
+pub fn mouse_button_name(code: u32) -> KName {
+    const PLAIN: [KName; 4] = [KName::MouseLeft, KName::MouseMiddle, KName::MouseRight, KName::MouseMove];
+    const WHEEL: [KName; 4] = [KName::MouseWheelDown, KName::MouseWheelUp, KName::MouseMove, KName::MouseMove];
+    if code & 64 != 0 {
+        WHEEL[(code & 3) as usize]
+    } else {
+        PLAIN[(code & 3) as usize]
+    }
+}
+
+/// xterm: 4 = shift, 8 = meta, 16 = control
+pub fn mouse_mods(code: u32) -> u32 {
+    let mut m = 0;
+    if code & 4 != 0 {
+        m |= SHIFT;
+    }
+    if code & 8 != 0 {
+        m |= ALT;
+    }
+    if code & 16 != 0 {
+        m |= CTRL;
+    }
+    m
+}
+
+// ---------------------------------------------------------------------------------------------
+// golden table 3: the sixteen basic colours; 16..=255 follow the xterm formula
+// ---------------------------------------------------------------------------------------------
+
+pub const BASIC16: [Rgb; 16] = [
+    [0, 0, 0],
+    [128, 0, 0],
+    [0, 128, 0],
+    [128, 128, 0],
+    [0, 0, 128],
+    [128, 0, 128],
+    [0, 128, 128],
+    [192, 192, 192],
+    [128, 128, 128],
+    [255, 0, 0],
+    [0, 255, 0],
+    [255, 255, 0],
+    [0, 0, 255],
+    [255, 0, 255],
+    [0, 255, 255],
+    [255, 255, 255],
+];
+
+/// xterm 256-colour palette: 16..=231 is the 6x6x6 cube with levels 0,95,135,175,215,255
+/// (`level = 0 if i == 0 else 55 + 40 i`), 232..=255 the grey ramp `8 + 10 i`.
+pub fn palette256(n: u8) -> Rgb {
+    let n = n as usize;
+    if n < 16 {
+        BASIC16[n]
+    } else if n < 232 {
+        let i = n - 16;
+        let level = |k: usize| if k == 0 { 0u8 } else { (55 + 40 * k) as u8 };
+        [level(i / 36), level(i / 6 % 6), level(i % 6)]
+    } else {
+        let v = (8 + 10 * (n - 232)) as u8;
+        [v, v, v]
+    }
+}
+
+// ---------------------------------------------------------------------------------------------
+// printers
+// ---------------------------------------------------------------------------------------------
+
+pub const ST: &[u8] = b"\x1b\\";
+pub const BEL: &[u8] = b"\x07";
+
+/// xterm SGR (1006) mouse report: `CSI < Pb ; Px ; Py M` (press/motion) or `m` (release);
+/// Px = column, Py = row, both 1-based.
+pub fn print_mouse(code: u32, col1: usize, row1: usize, press: bool) -> (Vec<u8>, Ev) {
+    let bytes = format!("\x1b[<{code};{col1};{row1}{}", if press { 'M' } else { 'm' }).into_bytes();
+    let ev = Ev::Mouse {
+        name: mouse_button_name(code),
+        mods: mouse_mods(code) | if press { PRESS } else { 0 },
+        row: row1 - 1,
+        col: col1 - 1,
+    };
+    (bytes, ev)
+}
+
+/// CPR: `CSI Pl ; Pc R`, 1-based line and column
+pub fn print_cursor_report(row1: usize, col1: usize) -> (Vec<u8>, Ev) {
+    (format!("\x1b[{row1};{col1}R").into_bytes(), Ev::CursorPosition { row: row1 - 1, col: col1 - 1 })
+}
+
+/// XTWINOPS replies to `CSI 18 t` and `CSI 14 t`: `CSI 8 ; height ; width t` (characters)
+/// followed by `CSI 4 ; height ; width t` (pixels)
+pub fn print_text_area(cells_h: usize, cells_w: usize, px_h: usize, px_w: usize) -> (Vec<u8>, Ev) {
+    (
+        format!("\x1b[8;{cells_h};{cells_w}t\x1b[4;{px_h};{px_w}t").into_bytes(),
+        Ev::Size { cells_h, cells_w, px_h, px_w },
+    )
+}
+
+/// DEC private modes the library knows (number = the mode's DECSET number)
+pub const DEC_MODES: [usize; 9] = [25, 7, 80, 1000, 1003, 1006, 1049, 2026, 2004];
+
+/// DECRPM: `CSI ? Pd ; Ps $ y`, Ps: 0 not recognised, 1 set, 2 reset, 3 permanently set,
+/// 4 permanently reset
+pub fn print_decrpm(mode: usize, status: usize) -> (Vec<u8>, Ev) {
+    (format!("\x1b[?{mode};{status}$y").into_bytes(), Ev::DecMode { mode, status })
+}
+
+/// DA1: `CSI ? Ps ; ... c`; some terminals terminate the list with `;`
+pub fn print_da1(attrs: &[usize], trailing_semicolon: bool) -> (Vec<u8>, Ev) {
+    let list: Vec<String> = attrs.iter().map(|a| a.to_string()).collect();
+    let mut s = format!("\x1b[?{}", list.join(";"));
+    if trailing_semicolon {
+        s.push(';');
+    }
+    s.push('c');
+    (s.into_bytes(), Ev::DeviceAttrs(attrs.iter().copied().collect()))
+}
+
+/// One `rgb:` component of 1..=4 hex digits (XParseColor: an n-digit value v means v / (16^n - 1))
+#[derive(Debug, Clone, Copy, PartialEq, Eq, Hash)]
+pub struct HexComp {
+    pub digits: u32,
+    pub value: u32,
+}
+
+impl HexComp {
+    pub fn text(&self, upper: bool) -> String {
+        let w = self.digits as usize;
+        if upper {
+            format!("{:0w$X}", self.value)
+        } else {
+            format!("{:0w$x}", self.value)
+        }
+    }
+    /// acceptable 8-bit readings: the most significant byte (what terminals replicate from) and
+    /// the nearest value of v * 255 / (16^n - 1); for 1 and 2 digits both are exact and equal
+    pub fn eight_bit(&self) -> (u8, u8) {
+        let max = (1u32 << (4 * self.digits)) - 1;
+        let nearest = ((self.value * 255 * 2 + max) / (2 * max)) as u8;
+        let msb = match self.digits {
+            1 => (self.value * 17) as u8,
+            2 => self.value as u8,
+            3 => (self.value >> 4) as u8,
+            _ => (self.value >> 8) as u8,
+        };
+        (msb, nearest)
+    }
+}
+
+/// colour specification of an OSC 4/10/11 reply
+#[derive(Debug, Clone)]
+pub enum ColorSpec {
+    /// `rgb:R/G/B`
+    Rgb([HexComp; 3], bool),
+    /// `#rrggbb`
+    Hash(Rgb, bool),
+}
+
+/// OSC 4 ; index ; spec, OSC 10 ; spec (foreground), OSC 11 ; spec (background); BEL or ST
+pub fn print_osc_color(name: ColorName, spec: &ColorSpec, st: bool) -> (Vec<u8>, Ev) {
+    let (text, comps) = match spec {
+        ColorSpec::Rgb(c, upper) => (
+            format!("rgb:{}/{}/{}", c[0].text(*upper), c[1].text(*upper), c[2].text(*upper)),
+            [c[0].eight_bit(), c[1].eight_bit(), c[2].eight_bit()],
+        ),
+        ColorSpec::Hash(c, upper) => (
+            if *upper {
+                format!("#{:02X}{:02X}{:02X}", c[0], c[1], c[2])
+            } else {
+                format!("#{:02x}{:02x}{:02x}", c[0], c[1], c[2])
+            },
+            [(c[0], c[0]), (c[1], c[1]), (c[2], c[2])],
+        ),
+    };
+    let head = match name {
+        ColorName::Foreground => "10".to_string(),
+        ColorName::Background => "11".to_string(),
+        ColorName::Palette(i) => format!("4;{i}"),
+    };
+    let mut b = format!("\x1b]{head};{text}").into_bytes();
+    b.extend_from_slice(if st { ST } else { BEL });
+    (b, Ev::Color { name, comps, alpha: 255 })
+}
+
+fn hex_encode(s: &str, upper: bool) -> String {
+    s.bytes().map(|b| if upper { format!("{b:02X}") } else { format!("{b:02x}") }).collect()
+}
+
+/// XTGETTCAP reply: `DCS 1 + r name=value ; ... ST` (valid) or `DCS 0 + r name ; ... ST` (invalid),
+/// names and values hex encoded
+pub fn print_xtgettcap(ok: bool, pairs: &[(&str, &str)], upper: bool) -> (Vec<u8>, Ev) {
+    let items: Vec<String> = pairs
+        .iter()
+        .map(|(k, v)| if ok { format!("{}={}", hex_encode(k, upper), hex_encode(v, upper)) } else { hex_encode(k, upper) })
+        .collect();
+    let mut b = format!("\x1bP{}+r{}", if ok { 1 } else { 0 }, items.join(";")).into_bytes();
+    b.extend_from_slice(ST);
+    let map = pairs
+        .iter()
+        .map(|(k, v)| (k.to_string(), if ok { Some(v.to_string()) } else { None }))
+        .collect();
+    (b, Ev::Termcap(map))
+}
+
+/// kitty functional key codes the library has a name for: 27 ESCAPE, 13 ENTER, 9 TAB,
+/// 127 BACKSPACE, 57376..=57398 F13..F35; every other code outside the private use area
+/// 57344..=63743 is the Unicode code point of the key. `None`: a functional key the naming
+/// table has no entry for (the property is silent about it).
+pub fn kitty_key_name(code: u32) -> Option<KName> {
+    Some(match code {
+        27 => KName::Esc,
+        13 => KName::Enter,
+        9 => KName::Tab,
+        127 => KName::Backspace,
+        57376..=57398 => KName::F((code - 57376 + 13) as usize),
+        57344..=63743 => return None,
+        _ => KName::Char(char::from_u32(code)?),
+    })
+}
+
+/// kitty keyboard: `CSI code[:shifted[:base]] [; mods] u`, mods = 1 + mask
+pub fn print_kitty_key(code: u32, shifted: Option<u32>, base: Option<u32>, mods_param: Option<u32>) -> Option<(Vec<u8>, Ev)> {
+    let name = kitty_key_name(code)?;
+    let mut s = format!("\x1b[{code}");
+    match (shifted, base) {
+        (Some(sh), None) => s.push_str(&format!(":{sh}")),
+        (None, Some(b)) => s.push_str(&format!("::{b}")),
+        (Some(sh), Some(b)) => s.push_str(&format!(":{sh}:{b}")),
+        (None, None) => {}
+    }
+    if let Some(m) = mods_param {
+        s.push_str(&format!(";{m}"));
+    }
+    s.push('u');
+    let mods = mods_param.map(|m| m - 1).unwrap_or(0);
+    Some((s.into_bytes(), Ev::Key { name, mods }))
+}
+
+/// reply to `CSI ? u`: `CSI ? flags u`
+pub fn print_kitty_level(flags: usize) -> (Vec<u8>, Ev) {
+    (format!("\x1b[?{flags}u").into_bytes(), Ev::KeyboardLevel(flags))
+}
+
+/// kitty graphics response: `APC G i=<id>[,p=<placement>][,<extra>] ; OK|<error> ST`
+pub fn print_kitty_image(id: u64, placement: Option<u64>, extra: Option<&str>, message: &str) -> (Vec<u8>, Ev) {
+    let mut s = format!("\x1b_Gi={id}");
+    if let Some(p) = placement {
+        s.push_str(&format!(",p={p}"));
+    }
+    if let Some(e) = extra {
+        s.push(',');
+        s.push_str(e);
+    }
+    s.push(';');
+    s.push_str(message);
+    let mut b = s.into_bytes();
+    b.extend_from_slice(ST);
+    let error = if message == "OK" { None } else { Some(message.to_string()) };
+    (b, Ev::KittyImage { id, placement, error })
+}
+
+/// bracketed paste: `CSI 200 ~ text CSI 201 ~`
+pub fn print_paste(text: &str) -> (Vec<u8>, Ev) {
+    let mut b = b"\x1b[200~".to_vec();
+    b.extend_from_slice(text.as_bytes());
+    b.extend_from_slice(b"\x1b[201~");
+    (b, Ev::Paste(text.to_string()))
+}
+
+pub fn print_text(c: char) -> (Vec<u8>, Ev) {
+    let mut buf = [0u8; 4];
+    (c.encode_utf8(&mut buf).as_bytes().to_vec(), Ev::ch(c))
+}
+
+// ---------------------------------------------------------------------------------------------
+// SGR
+// ---------------------------------------------------------------------------------------------
+
+#[derive(Debug, Clone, Copy, PartialEq, Eq, Hash, Serialize, Deserialize)]
+pub enum Target {
+    Fg,
+    Bg,
+    Ul,
+}
+
+impl Target {
+    pub const ALL: [Target; 3] = [Target::Fg, Target::Bg, Target::Ul];
+    fn code(self) -> u32 {
+        match self {
+            Target::Fg => 38,
+            Target::Bg => 48,
+            Target::Ul => 58,
+        }
+    }
+}
+
+/// how an extended colour is written
+#[derive(Debug, Clone, Copy, PartialEq, Eq, Hash, Serialize, Deserialize)]
+pub enum ColorForm {
+    /// `38;2;r;g;b` (konsole/xterm compatibility form; exactly three components)
+    RgbSemi,
+    /// `38:2:r:g:b`
+    RgbColon,
+    /// `38:2::r:g:b` (ISO-8613-6 with empty colour-space id)
+    RgbColonEmptyCs,
+    /// `38:2:<cs>:r:g:b`
+    RgbColonCs(u32),
+    /// `38;5;n`
+    IdxSemi,
+    /// `38:5:n`
+    IdxColon,
+}
+
+impl ColorForm {
+    pub const RGB: [ColorForm; 5] = [
+        ColorForm::RgbSemi,
+        ColorForm::RgbColon,
+        ColorForm::RgbColonEmptyCs,
+        ColorForm::RgbColonCs(0),
+        ColorForm::RgbColonCs(1),
+    ];
+    pub fn is_indexed(self) -> bool {
+        matches!(self, ColorForm::IdxSemi | ColorForm::IdxColon)
+    }
+}
+
+/// One SGR parameter (group) and what it denotes
+#[derive(Debug, Clone, Copy, PartialEq, Eq, Hash, Serialize, Deserialize)]
+pub enum SgrOp {
+    /// `0`
+    Reset,
+    /// empty parameter (default value 0)
+    ResetEmpty,
+    Bold,
+    Italic,
+    ItalicOff,
+    Blink,
+    BlinkOff,
+    Strike,
+    StrikeOff,
+    /// plain `4`
+    Underline,
+    /// `4:n`, n = 0 none, 1 straight, 2 double, 3 curly, 4 dotted, 5 dashed
+    UnderlineStyle(u32),
+    /// `24`
+    UnderlineOff,
+    /// 30..=37, 90..=97: palette index 0..=15
+    NamedFg(u8),
+    /// 40..=47, 100..=107
+    NamedBg(u8),
+    /// 38 / 48 / 58 with an RGB value; for the indexed forms only `rgb[0]` is used as the index
+    Color(Target, ColorForm, Rgb),
+}
+
+impl SgrOp {
+    pub fn text(&self) -> String {
+        match *self {
+            SgrOp::Reset => "0".into(),
+            SgrOp::ResetEmpty => "".into(),
+            SgrOp::Bold => "1".into(),
+            SgrOp::Italic => "3".into(),
+            SgrOp::ItalicOff => "23".into(),
+            SgrOp::Blink => "5".into(),
+            SgrOp::BlinkOff => "25".into(),
+            SgrOp::Strike => "9".into(),
+            SgrOp::StrikeOff => "29".into(),
+            SgrOp::Underline => "4".into(),
+            SgrOp::UnderlineStyle(n) => format!("4:{n}"),
+            SgrOp::UnderlineOff => "24".into(),
+            SgrOp::NamedFg(i) => (if i < 8 { 30 + i as u32 } else { 90 + i as u32 - 8 }).to_string(),
+            SgrOp::NamedBg(i) => (if i < 8 { 40 + i as u32 } else { 100 + i as u32 - 8 }).to_string(),
+            SgrOp::Color(t, form, [r, g, b]) => {
+                let c = t.code();
+                match form {
+                    ColorForm::RgbSemi => format!("{c};2;{r};{g};{b}"),
+                    ColorForm::RgbColon => format!("{c}:2:{r}:{g}:{b}"),
+                    ColorForm::RgbColonEmptyCs => format!("{c}:2::{r}:{g}:{b}"),
+                    ColorForm::RgbColonCs(cs) => format!("{c}:2:{cs}:{r}:{g}:{b}"),
+                    ColorForm::IdxSemi => format!("{c};5;{r}"),
+                    ColorForm::IdxColon => format!("{c}:5:{r}"),
+                }
+            }
+        }
+    }
+
+    pub fn apply(&self, m: &mut MModify) {
+        match *self {
+            // reset cancels everything said before it in the same sequence
+            SgrOp::Reset | SgrOp::ResetEmpty => *m = MModify { reset: true, ..MModify::default() },
+            SgrOp::Bold => m.bold = Some(true),
+            SgrOp::Italic => m.italic = Some(true),
+            SgrOp::ItalicOff => m.italic = Some(false),
+            SgrOp::Blink => m.blink = Some(true),
+            SgrOp::BlinkOff => m.blink = Some(false),
+            SgrOp::Strike => m.strike = Some(true),
+            SgrOp::StrikeOff => m.strike = Some(false),
+            SgrOp::Underline => m.underline = Some(UStyle::Straight),
+            SgrOp::UnderlineStyle(n) => {
+                m.underline = Some(match n {
+                    0 => UStyle::None,
+                    1 => UStyle::Straight,
+                    2 => UStyle::Double,
+                    3 => UStyle::Curly,
+                    4 => UStyle::Dotted,
+                    _ => UStyle::Dashed,
+                })
+            }
+            SgrOp::UnderlineOff => m.underline = Some(UStyle::None),
+            SgrOp::NamedFg(i) => m.fg = Some(BASIC16[i as usize]),
+            SgrOp::NamedBg(i) => m.bg = Some(BASIC16[i as usize]),
+            SgrOp::Color(t, form, rgb) => {
+                let c = if form.is_indexed() { palette256(rgb[0]) } else { rgb };
+                match t {
+                    Target::Fg => m.fg = Some(c),
+                    Target::Bg => m.bg = Some(c),
+                    Target::Ul => m.underline_color = Some(c),
+                }
+            }
+        }
+    }
+}
+
+pub fn sgr_params(ops: &[SgrOp]) -> String {
+    ops.iter().map(|o| o.text()).collect::<Vec<_>>().join(";")
+}
+
+pub fn sgr_modify(ops: &[SgrOp]) -> MModify {
+    let mut m = MModify::default();
+    for o in ops {
+        o.apply(&mut m);
+    }
+    m
+}
+
+/// the face a modification produces from the default face (underline colour is not part of a face)
+pub fn face_of(m: &MModify) -> MFace {
+    MFace {
+        fg: m.fg,
+        bg: m.bg,
+        underline: m.underline.unwrap_or(UStyle::None),
+        bold: m.bold == Some(true),
+        italic: m.italic == Some(true),
+        blink: m.blink == Some(true),
+        reverse: false,
+        strike: m.strike == Some(true),
+    }
+}
+
+/// SGR: `CSI Pm m`
+pub fn print_sgr(ops: &[SgrOp]) -> (Vec<u8>, Ev) {
+    (format!("\x1b[{}m", sgr_params(ops)).into_bytes(), Ev::FaceModify(sgr_modify(ops)))
+}
+
+/// DECRPSS reply to DECRQSS `m`: `DCS 1 $ r Pm m ST`
+pub fn print_decrpss_sgr(ops: &[SgrOp]) -> (Vec<u8>, Ev) {
+    let mut b = format!("\x1bP1$r{}m", sgr_params(ops)).into_bytes();
+    b.extend_from_slice(ST);
+    (b, Ev::FaceGet(face_of(&sgr_modify(ops))))
+}
